@@ -5,6 +5,7 @@ package manager
 
 import (
 	"bufio"
+	"crypto/md5"
 	"encoding/json"
 	"fmt"
 	"os"
@@ -87,8 +88,13 @@ func (s *vScenario) open() error {
 	return s.sync()
 }
 
+// The converter answers "CONV:" + the client payload.  It has one quirk, as converters written by users have: the first
+// time it sees a payload that contains MARK2; it answers with a chunk whose time stamp has a zone suffix (which the
+// service rejects), and otherwise follows the protocol; asked again, it answers properly.  The service kills the
+// process after such a chunk and tries the stream again; no other stream may get that answer.
 const vConverterScript = `#!/usr/bin/python3
-import base64, json, sys
+import base64, hashlib, json, os, sys, tempfile
+seen_dir = os.path.join(tempfile.gettempdir(), "verifconv-" + hashlib.md5(os.path.abspath(__file__).encode()).hexdigest())
 lines = []
 while 1:
     line = sys.stdin.readline()
@@ -102,11 +108,30 @@ while 1:
     for l in lines[1:]:
         if l.get("Direction") == "client-to-server":
             out += base64.b64decode(l.get("Content", ""))
-    print(json.dumps({"Direction": "client-to-server", "Content": base64.b64encode(out).decode(), "Time": "2021-03-04T05:06:07.000001"}))
+    stamp = "2021-03-04T05:06:07.000001"
+    if b"MARK2;" in out:
+        os.makedirs(seen_dir, exist_ok=True)
+        mark = os.path.join(seen_dir, hashlib.md5(out).hexdigest())
+        if not os.path.exists(mark):
+            open(mark, "w").close()
+            stamp += "+00:00"
+    print(json.dumps({"Direction": "client-to-server", "Content": base64.b64encode(out).decode(), "Time": stamp}))
     print()
     print("{}", flush=True)
     lines = []
 `
+
+func vRemoveBase(base string, convs []string) {
+	os.RemoveAll(base)
+	for _, c := range convs {
+		os.RemoveAll(vConverterSeenDir(filepath.Join(base, "converter", c+".py")))
+	}
+}
+
+func vConverterSeenDir(script string) string {
+	abs, _ := filepath.Abs(script)
+	return filepath.Join(os.TempDir(), fmt.Sprintf("verifconv-%x", md5.Sum([]byte(abs))))
+}
 
 // after a closure ran: every job whose flag is set must be parked at its start hook or its gate.
 // A flag that stays set although no job goroutine ever shows up is not a harness problem: it is
@@ -270,7 +295,10 @@ func (s *vScenario) exec(st vStep) (res, msg string, fatal error) {
 			return "skip", "no such stream in view", nil
 		}
 		if _, err := sc.Data(st.Convs[0]); err != nil {
-			return "err", err.Error(), nil
+			// the converter's quirk (see vConverterScript): the first answer for such a payload is rejected; ask again
+			if _, err := sc.Data(st.Convs[0]); err != nil {
+				return "err", err.Error(), nil
+			}
 		}
 		return "ok", "", s.sync()
 	case "ViewOpen":
@@ -476,7 +504,7 @@ func TestVerifManager(t *testing.T) {
 						bw.Flush()
 						summary["restart-"+r2]++
 						abandoned = true
-						os.RemoveAll(c.Base)
+						vRemoveBase(c.Base, sc.Convs)
 						break
 					}
 					ns.crashes = s.crashes
@@ -555,7 +583,7 @@ func TestVerifManager(t *testing.T) {
 				if res == "hang" {
 					vInstallCtl(nil)
 				}
-				os.RemoveAll(c.Base)
+				vRemoveBase(c.Base, sc.Convs)
 				continue
 			}
 			cemit := mkEmit(ns, sid, 0)
@@ -580,11 +608,14 @@ func TestVerifManager(t *testing.T) {
 				cemit(vStep{A: "EndSettle"}, "ok", "", time.Now(), func(r *vRow) { r.Last = true })
 			}
 			ns.close()
-			os.RemoveAll(c.Base)
+			vRemoveBase(c.Base, sc.Convs)
 		}
 		os.RemoveAll(base)
-		for _, b := range bases {
+		for _, b := range append(bases, base, s.dirs["base"]) {
 			os.RemoveAll(b)
+			for _, c := range sc.Convs {
+				os.RemoveAll(vConverterSeenDir(filepath.Join(b, "converter", c+".py")))
+			}
 		}
 		os.RemoveAll(s.dirs["base"])
 	}
